@@ -188,6 +188,48 @@ def main(tier, seed, replay=None):
                 bad["order"] += 1
                 rep.violation("input", "equal values render differently by construction order: %r vs %r" % (t, to), check="order", text=t, other=to)
                 break
+    # ---- numeric neighbours: ints beyond 2^53 next to the decimals around them, in every insertion order
+    NEIGH = [9007199254740993, 9007199254740992.0, 9007199254740992, 9007199254740994.0, 2 ** 63 + 1, float(2 ** 63), 10 ** 20 + 1, 1e20, 7, 7.5, -9007199254740993, -9007199254740992.0]
+    for k in (2, 3):
+        for combo in itertools.combinations(NEIGH, k):
+            if any(datagen.py_eq(a, b) for a, b in itertools.combinations(combo, 2)):
+                continue
+            texts_s, texts_m = set(), set()
+            for p in itertools.permutations(combo):
+                rep.count()
+                texts_s.add(str(datagen.to_impl(gal.SetV(p))))
+                texts_m.add(str(datagen.to_impl(gal.MapV(tuple((x, i) for i, x in enumerate(p))))))
+            if len(texts_s) > 1 or len({re.sub(r"=> \d", "=>", t) for t in texts_m}) > 1:
+                bad["order"] += 1
+                rep.violation("input", "sets/maps of the numbers %s render differently by insertion order: %s" % (list(combo), sorted(texts_s)[:2]), check="order-numeric", combo=repr(combo))
+    # ---- equal elements of different type in one construction (1 and 1.0, 0 and -0.0): the representative kept depends on the order
+    for a, b in [(1, 1.0), (0, -0.0), (2 ** 53, float(2 ** 53)), (0.0, -0.0)]:
+        V = __import__("ckl.values", fromlist=["x"])
+        s1, s2 = V.ValueSet(), V.ValueSet()
+        for x in (a, b):
+            s1.addItem(datagen.to_impl(x))
+        for x in (b, a):
+            s2.addItem(datagen.to_impl(x))
+        rep.count()
+        if s1 == s2 and str(s1) != str(s2):
+            rep.violation("input", "the sets built by adding %r then %r and %r then %r are equal but render %s and %s" % (a, b, b, a, s1, s2), check="order-representative", a=repr(a), b=repr(b))
+    # ---- values produced by programs (conversions), not only by the value constructors
+    PROGS = ["decimal(9007199254740993)", "decimal(-9007199254740993)", "9007199254740993 * 1.0", "10 * 1.5", "int(2.5e15)", "decimal(7)", "int('12')", "decimal('1e5')",
+             "1 / 3.0", "2 * 0.1", "10000000000000000 + 0.5", "[decimal(3), int(3.7), string(1.5)]", "<<decimal(2), 3>>", "<<<decimal(2) => int(4.9)>>>", "round(2.567, 2)",
+             "1e5", "abs(-0.0)", "sqrt(2)", "pow(2, 0.5)", "pow(10, 20) * 1.0", "sum([0.1, 0.2])", "list(<<3, 1, 2>>)", "set([2.0, 1, 3])", "'a' + 1.5", "string(1e16)", "string(<<<<>>>>)"]
+    pb = 0
+    for src in PROGS:
+        rep.count()
+        k1, v1 = reval(src)
+        if k1 != "val":
+            continue            # not every program is valid (e.g. 1e5 is not a literal): only values are of interest
+        t = str(v1)
+        k2, v2 = reval(t)
+        if k2 != "val" or type(v2) is not type(v1) or impl.canon(v2) != impl.canon(v1) or str(v2) != t:
+            pb += 1
+            rep.violation("input", "the value of %s renders as %r, which %s" % (src, t, "does not evaluate: %s" % v2 if k2 != "val" else "evaluates to %s" % impl.canon(v2)[:100]),
+                          check="program-value", src=src)
+    rep.oblige("values produced by %d conversion programs round-trip through their text" % len(PROGS), pb == 0, "%d failures" % pb)
     rep.oblige("%d data values: the rendered text evaluates to an equal value of the same type that renders to the same text" % len(vals),
                bad["roundtrip"] == 0, "%d failures" % bad["roundtrip"])
     rep.oblige("ints render as integer numerals, decimals as numerals with a fractional part, strings quoted without raw CR/LF/TAB", bad["shape"] == 0, "%d failures" % bad["shape"])
